@@ -6,6 +6,7 @@ request : trace <H|N|S|G> <nfiles> [c<k>|-] <layer>,<layer>,…
                   a digit d in 1..8 is the package p<(d-1)%4+1> at version (d-1)/4+1: ids d and d+4 share their name)
                 | s<digits> (location replaced by a symlink to a list with these packages)
                 | t<digits> (the location is a symlink: this layer rewrites the link's TARGET, not the link)
+                | l<n> / h<n> (that directory is replaced by a symlink / hard link to another directory)
                 | a<n> / r<n> (the directory n levels above the file — the files sit up to three directories deep
                   — is deleted by a whiteout / replaced by a regular file; every file below goes)
           c<k>  = the context is cancelled once the trace has made k re-extractions; c0 = a detector cancels it after the
@@ -40,6 +41,10 @@ def parseOp (s : String) : Option ROp :=
     | 't' :: ds => (ds.mapM fun (c : Char) => if c.isDigit then some (c.toNat - 48) else none).map ROp.retarget
     | ['a', d] => if '1' ≤ d ∧ d ≤ '9' then some (.anc (d.toNat - 48)) else none
     | ['r', d] => if '1' ≤ d ∧ d ≤ '9' then some (.anc (d.toNat - 48)) else none
+    -- l<n> / h<n>: the directory n levels up is replaced by a symlink / hard link to another directory: like r<n>, the path
+    -- is no longer a directory, so everything older layers have below it is gone
+    | ['l', d] => if '1' ≤ d ∧ d ≤ '9' then some (.anc (d.toNat - 48)) else none
+    | ['h', d] => if '1' ≤ d ∧ d ≤ '9' then some (.anc (d.toNat - 48)) else none
     | _ => none
 
 /-- the directories of the harness' files: 0 = var/lib/a/pkgs.list, 1 = usr/share/b/pkgs.list, 2 = opt/pkgs.list
